@@ -92,3 +92,48 @@ def containment(ctx, rule_id):
                                                        'packages that refer to it (\'is referenced by\')' % t[1])
         n += 1
     return r
+
+
+def globality(r, repo):
+    '''is_global: an element is global iff neither it nor any enclosing package is inside a component'''
+    fn = repo.func(OOA + 'is_global')
+    Q = OOA + 'is_global'
+    PE = param_names(fn, skip_self=False)[0]
+
+    def is_parent(x):
+        return pm.match('one(_P).EP_PKG[8000].PE_PE[8001]()', x) is not None or pm.match('one(one(_P).EP_PKG[8000]()).PE_PE[8001]()', x) is not None
+
+    def is_cc(x):
+        return pm.match('one(_P).C_C[8003]()', x) is not None
+
+    def truth(e, s, tr):
+        x = e['_X']
+        if is_cc(x):
+            return s['in_cc']
+        if is_parent(x):
+            return s['parent']
+        return None
+
+    def rec(e, s, tr):
+        if not is_parent(e['_X']):
+            return None
+        tr.append('rec')
+        return s['parent_global']
+    atoms = [("type(_E).__name__ != 'PE_PE'", lambda e, s, tr: s['wrapped']), ("type(_E).__name__ == 'PE_PE'", lambda e, s, tr: not s['wrapped']),
+             ('is_global(_X)', rec), ('_X is None', lambda e, s, tr: (None if truth(e, s, tr) is None else not truth(e, s, tr))),
+             ('_X is not None', truth), ('_X', truth)]
+    it = absint.Interp(fn, atoms)
+    for in_cc, parent, parent_global, wrapped in itertools.product([False, True], [False, True], [False, True], [False, True]):
+        st = {'in_cc': in_cc, 'parent': parent, 'parent_global': parent_global, 'wrapped': wrapped}
+        out, tr = it.run(st)
+        want = (not in_cc) and (parent_global if parent else True)
+        v = out.value if out.kind == 'return' else None
+        if isinstance(v, ast.Constant):
+            got = v.value
+        elif v is not None and pm.match('is_global(_X)', v) and is_parent(pm.match('is_global(_X)', v)['_X']):
+            got = parent_global if parent else None
+        else:
+            got = None
+        desc = 'is_global(element directly inside a component=%d, has an enclosing package=%d, that package is global=%d)' % (in_cc, parent, parent_global)
+        r.check(got is want, '%s -> %s' % (desc, want), fn, construct=Q, key='global %d %d %d' % (in_cc, parent, parent_global),
+                msg='%s must be %s; the code yields %r: is_global no longer rejects elements inside a C_C / recurses through EP_PKG' % (desc, want, out))
